@@ -251,7 +251,13 @@ def run(ctx):
                                     {"info": info, "accessor": kind, "options": opts, "key": key, "coords": list(b),
                                      "array": how})
             if kind == "sharded":
-                acc.close()
+                try:
+                    acc.close()
+                except Exception as exc:  # noqa
+                    ctx.oracle_fail(f"closing the sharded dataset raised {type(exc).__name__}: {exc}",
+                                    {"info": info, "accessor": kind})
+                    acc.shard_dict.clear()   # nothing more to flush at interpreter exit
+                    continue
             readers = [("same", io)]
             if kind != "dict":
                 try:
